@@ -221,9 +221,10 @@ def e_enum_deprecation(rng, d):
     t = rng.choice(_objs(n, ("enum",)))
     v = rng.choice(t["values"])
     if v["deprecated"] is None:
-        v["deprecated"] = "because"
+        # an EMPTY reason is a deprecation like any other (`deprecated` is `reason is not None`)
+        v["deprecated"] = rng.choice(["because", ""])
         return n, {"EnumValueDeprecated"}, {"EnumValueDeprecationRemoved"}, v["name"]
-    v["deprecated"] = v["deprecated"] + " changed"
+    v["deprecated"] = "" if (v["deprecated"] != "" and rng.random() < 0.4) else v["deprecated"] + " changed"
     return n, {"EnumValueDeprecationReasonChanged"}, {"EnumValueDeprecationReasonChanged"}, v["name"]
 
 
@@ -232,10 +233,60 @@ def e_field_deprecation(rng, d):
     cands = [(t, f) for t in _objs(n, ("object", "interface")) for f in t["fields"]]
     t, f = rng.choice(cands)
     if f["deprecated"] is None:
-        f["deprecated"] = "because"
+        f["deprecated"] = rng.choice(["because", ""])
         return n, {"FieldDeprecated"}, {"FieldDeprecationRemoved"}, f["name"]
-    f["deprecated"] = f["deprecated"] + " changed"
+    f["deprecated"] = "" if (f["deprecated"] != "" and rng.random() < 0.4) else f["deprecated"] + " changed"
     return n, {"FieldDeprecationReasonChanged"}, {"FieldDeprecationReasonChanged"}, f["name"]
+
+
+def _iface_arg_cands(n, optional_everywhere):
+    """(interface, field, argument) triples; with `optional_everywhere` only arguments every implementer keeps as an
+    OPTIONAL argument (so that removing the argument from the interface alone leaves a valid schema)"""
+    out = []
+    for i in _objs(n, ("interface",)):
+        impls = [o for o in _objs(n) if i["name"] in o["interfaces"]]
+        for f in i["fields"]:
+            for a in f.get("args") or []:
+                ok = True
+                if optional_everywhere:
+                    for o in impls:
+                        of = [x for x in o["fields"] if x["name"] == f["name"]]
+                        oa = [x for x in (of[0].get("args") or []) if x["name"] == a["name"]] if of else []
+                        if not oa or (oa[0]["type"][0] == "nonNull" and oa[0].get("default") is None):
+                            ok = False
+                if ok:
+                    out.append((i, f, a))
+    return out
+
+
+def e_interface_arg_removed(rng, d):
+    """an argument is removed from an INTERFACE field only (implementers keep it as an additional optional argument)"""
+    n = copy.deepcopy(d)
+    cands = _iface_arg_cands(n, True)
+    if not cands:
+        return None
+    i, f, a = rng.choice(cands)
+    f["args"] = [x for x in f["args"] if x["name"] != a["name"]]
+    return n, {"FieldArgumentRemoved"}, {"FieldArgumentAdded"}, a["name"], ("iface-arg", i["name"])
+
+
+def e_interface_arg_default(rng, d):
+    """the default value of an INTERFACE field argument changes (implementers untouched)"""
+    n = copy.deepcopy(d)
+    cands = [(i, f, a) for i, f, a in _iface_arg_cands(n, False)
+             if (gs.ty_base(a["type"]) in ("Int", "String", "Boolean") and a["type"][0] == "named")
+             or (a["type"][0] != "nonNull" and a.get("default") is None)]
+    if not cands:
+        return None
+    i, f, a = rng.choice(cands)
+    if gs.ty_base(a["type"]) in ("Int", "String", "Boolean") and a["type"][0] == "named":
+        new = {"Int": "12345", "String": '"changed"', "Boolean": "true"}[gs.ty_base(a["type"])]
+        if a.get("default") == new:
+            new = {"Int": "54321", "String": '"changed2"', "Boolean": "false"}[gs.ty_base(a["type"])]
+    else:
+        new = "null"   # explicit null default on a nullable argument
+    a["default"] = new
+    return n, {"FieldArgumentDefaultValueChange"}, {"FieldArgumentDefaultValueChange"}, a["name"], ("iface-arg", i["name"])
 
 
 def e_union_member(rng, d):
@@ -353,7 +404,7 @@ def e_root_added(rng, d):
     return n, {"RootTypeAdded"}, {"RootTypeRemoved"}, target
 
 
-EDITS = [e_root_repoint, e_root_added, e_add_type, e_add_field, e_retype_field, e_add_arg, e_retype_arg, e_arg_default, e_null_default, e_add_input_field,
+EDITS = [e_root_repoint, e_root_added, e_interface_arg_removed, e_interface_arg_default, e_add_type, e_add_field, e_retype_field, e_add_arg, e_retype_arg, e_arg_default, e_null_default, e_add_input_field,
          e_retype_input_field, e_add_enum_value, e_enum_deprecation, e_field_deprecation, e_union_member,
          e_implement_interface, e_add_directive, e_directive_location, e_directive_arg, e_retype_directive_arg,
          e_change_kind]
@@ -619,6 +670,21 @@ def run(ctx):
 def _run(ctx):
     n = ctx.n(150, 2500)
     base = ctx.rng.randrange(1 << 30)
+    # every kind of elementary edit is exercised in every run: at least `want` applicable cases per edit
+    want = ctx.n(4, 25)
+    for e in EDITS:
+        got = 0
+        for j in range(want * 12):
+            if got >= want or ctx.out_of_time():
+                break
+            seed = base + 7919 * (j + 1) + (__import__('zlib').crc32(e.__name__.encode()) & 0xFFFF)
+            before = ctx.stats.get("edit:" + e.__name__, 0)
+            ctx.count()
+            for sig, what in one_case(ctx, seed, want=e.__name__):
+                ctx.fail(sig, what, {"schema_case_seed": seed, "edit": e.__name__, "what": what})
+            got += ctx.stats.get("edit:" + e.__name__, 0) - before
+        if got == 0:
+            ctx.stat("edit-never-applicable:" + e.__name__)
     for i in range(n):
         if ctx.out_of_time():
             ctx.notes.append("schema-level loop stopped by budget after %d cases" % i)
@@ -942,6 +1008,6 @@ def replay(ctx, data):
     if "history_seed" in inp:
         return not history_case(ctx, inp["history_seed"])
     if "schema_case_seed" in inp:
-        fails = one_case(ctx, inp["schema_case_seed"])
+        fails = one_case(ctx, inp["schema_case_seed"], want=inp.get("edit"))
         return not fails
     return True
